@@ -115,6 +115,10 @@ pub struct QuerySpec {
     /// outer WHERE, which is how the harness's own side queries read them.
     #[serde(default)]
     pub inner_where: Vec<String>,
+    /// The outer projection aggregates again, grouped by the key aliases
+    /// (`SELECT k0, max(a0) AS m FROM (...) AS sub GROUP BY k0`): one row per inner key tuple.
+    #[serde(default)]
+    pub outer_group_by: bool,
 }
 
 impl QuerySpec {
@@ -210,7 +214,12 @@ impl QuerySpec {
             None => self.inner_sql(population),
             Some(o) => {
                 let items: Vec<String> = o.iter().map(|(e, a)| format!("{} AS {}", e, a)).collect();
-                format!("SELECT {} FROM ({}) AS sub", items.join(", "), self.inner_sql(population))
+                let g = if self.outer_group_by && !self.keys.is_empty() {
+                    format!(" GROUP BY {}", self.keys.iter().map(|k| k.alias.clone()).collect::<Vec<_>>().join(", "))
+                } else {
+                    String::new()
+                };
+                format!("SELECT {} FROM ({}) AS sub{}", items.join(", "), self.inner_sql(population), g)
             }
         }
     }
